@@ -96,6 +96,9 @@ mod num_integration;
 #[cfg(feature = "serde")]
 mod serialization;
 
+#[cfg(feature = "verif_hooks")]
+pub mod verif_hooks;
+
 pub use base::no_overlap;
 
 pub mod iter;
